@@ -153,7 +153,11 @@ func run(c *vf.Ctx) {
 	var errSamples []any
 	failByOp := map[string]int{}
 
+	only := os.Getenv("C32_ONLY") // "hist:case": run one case verbosely (triage aid)
 	vf.Parallel(nHist, 6, func(hi int) {
+		if only != "" && !strings.HasPrefix(only, fmt.Sprintf("%d:", hi)) {
+			return
+		}
 		r := c.Rand("hist", hi)
 		h := gen.RandomHistory(r, gen.HistOpts{N: 5 + r.Intn(5), MergeProb: 0.2, Files: 10 + r.Intn(12), Branches: 3,
 			Path: gen.PathOpts{Depth: 3, Symlinks: true, Exec: true}})
@@ -183,6 +187,9 @@ func run(c *vf.Ctx) {
 		}
 
 		for ci := 0; ci < perHist; ci++ {
+			if only != "" && only != fmt.Sprintf("%d:%d", hi, ci) {
+				continue
+			}
 			cr := c.Rand("case", hi, ci)
 			rec := caseRec{Hist: hi, Case: ci, Wrapped: ci%3 == 2}
 			B := filepath.Join(root, fmt.Sprintf("B%d", ci))
@@ -259,6 +266,12 @@ func run(c *vf.Ctx) {
 				rec.Ops = append(rec.Ops, op)
 				rec.Step = len(rec.Ops) - 1
 
+				if only != "" { // triage: keep the state before every step
+					keep := filepath.Join(os.TempDir(), fmt.Sprintf("c32-only-%d-%d-pre%d", hi, ci, step))
+					os.RemoveAll(keep)
+					twin.CopyTree(B, keep)
+					fmt.Printf("KEPT %s target=%s\n", keep, base.IDs[op.Commit])
+				}
 				hd, err := twin.Open(B, rec.Wrapped)
 				if err != nil {
 					c.Broken("open twin with go-git: %v", err)
@@ -336,6 +349,9 @@ func run(c *vf.Ctx) {
 				}
 				c.Count("git_index_reads", 1)
 				fails := evaluate(B, op, treeOf(op.Commit), target, ents, pre)
+				if only != "" {
+					fmt.Printf("STEP %d op=%+v\n pre=%v\n post=%v\n want=%v\n fails=%v\n", step, op, pre, ents, treeOf(op.Commit), fails)
+				}
 				// git's own view of tracked changes among non-skipped entries (deterministic sample)
 				if len(fails) == 0 && (ci+step)%3 == 0 {
 					stt := g.Run(B, "--no-optional-locks", "status", "--porcelain=v1", "-z", "--untracked-files=no", "--no-renames")
@@ -465,27 +481,24 @@ func preFrom(ents []twin.TEntry, B string) map[string]preEntry {
 	return pre
 }
 
-// underPreviouslySkipped: p itself was skip-worktree before the operation, or p lies below a directory all of
-// whose index entries were skip-worktree before the operation (such a directory is invisible to go-git's index noder).
-func underPreviouslySkipped(p string, pre map[string]preEntry) bool {
-	if e, ok := pre[p]; ok {
-		return e.Tag == "S"
+// resparseOtherCommit: the index before the operation already carried skip-worktree entries (an earlier sparse
+// operation) and differs from the target commit's tree, i.e. resetIndex has to update an index with skipped entries.
+func resparseOtherCommit(pre map[string]preEntry, want map[string]twin.TreeEntry) bool {
+	hasSkip := false
+	for _, e := range pre {
+		if e.Tag == "S" {
+			hasSkip = true
+			break
+		}
 	}
-	for i := 0; i <= len(p); i++ {
-		if i < len(p) && p[i] != '/' {
-			continue
-		}
-		d := p[:i] // every ancestor directory, and p itself when it used to be a directory
-		n, skipped := 0, 0
-		for q, e := range pre {
-			if twin.Under(q, d) {
-				n++
-				if e.Tag == "S" {
-					skipped++
-				}
-			}
-		}
-		if n > 0 && n == skipped {
+	if !hasSkip {
+		return false
+	}
+	if len(pre) != len(want) {
+		return true
+	}
+	for p, w := range want {
+		if e, ok := pre[p]; !ok || e.Mode != w.Mode || e.ID != w.ID {
 			return true
 		}
 	}
@@ -522,9 +535,10 @@ func evaluate(B string, op opSpec, want []twin.TreeEntry, target gen.Tree, ents 
 	}
 	sort.Strings(paths)
 	badIndex := map[string]bool{}
+	resparse := resparseOtherCommit(pre, wantM)
 	idxKey := func(p, kind string) string {
-		if underPreviouslySkipped(p, pre) {
-			return "sparse:previously-skipped-path:index-entry-" + kind
+		if resparse {
+			return "sparse:resparse-other-commit:index-entry-" + kind
 		}
 		return "sparse:index-entry-" + kind
 	}
